@@ -5,10 +5,12 @@ import (
 	"encoding/json"
 	"fmt"
 	"hash/fnv"
+	metav1 "k8s.io/apimachinery/pkg/apis/meta/v1"
 	"reflect"
 	"sort"
 	"strings"
 	"testing"
+	"unsafe"
 
 	"github.com/google/go-cmp/cmp"
 	appsv1 "k8s.io/api/apps/v1"
@@ -44,6 +46,37 @@ func drawC18(t *rapid.T) *c18Scenario {
 	k.MoreInitialized = true
 	k.Reserved = rapid.Bool().Draw(t, "reservedOfferings")
 	s := &c18Scenario{World: gen.World(t, k)}
+	// running pods keep the scheduling terms they were created with: OR-ed required terms whose first alternative
+	// nothing satisfies, preferred terms, ScheduleAnyway spreads - everything a simulation relaxes step by step
+	for i, p := range s.World.Bound {
+		l := fmt.Sprintf("c18_bound%d", i)
+		if !dpct(t, 35, l+"_relaxable") {
+			continue
+		}
+		if p.Spec.Affinity == nil {
+			p.Spec.Affinity = &corev1.Affinity{}
+		}
+		switch rapid.IntRange(0, 3).Draw(t, l+"_kind") {
+		case 0:
+			p.Spec.Affinity.NodeAffinity = &corev1.NodeAffinity{RequiredDuringSchedulingIgnoredDuringExecution: &corev1.NodeSelector{NodeSelectorTerms: []corev1.NodeSelectorTerm{
+				{MatchExpressions: []corev1.NodeSelectorRequirement{{Key: corev1.LabelTopologyZone, Operator: corev1.NodeSelectorOpIn, Values: []string{"zone-nowhere"}}}},
+				{MatchExpressions: []corev1.NodeSelectorRequirement{{Key: corev1.LabelOSStable, Operator: corev1.NodeSelectorOpExists}}}}}}
+		case 1:
+			p.Spec.Affinity.NodeAffinity = &corev1.NodeAffinity{PreferredDuringSchedulingIgnoredDuringExecution: []corev1.PreferredSchedulingTerm{
+				{Weight: 10, Preference: corev1.NodeSelectorTerm{MatchExpressions: []corev1.NodeSelectorRequirement{{Key: corev1.LabelTopologyZone, Operator: corev1.NodeSelectorOpIn, Values: []string{rapid.SampledFrom([]string{"zone-nowhere", gen.Zones[0], gen.Zones[1]}).Draw(t, l+"_prefZone")}}}}},
+				{Weight: 5, Preference: corev1.NodeSelectorTerm{MatchExpressions: []corev1.NodeSelectorRequirement{{Key: "ex.io/nothing", Operator: corev1.NodeSelectorOpExists}}}}}}
+		case 2:
+			p.Spec.Affinity.PodAntiAffinity = &corev1.PodAntiAffinity{PreferredDuringSchedulingIgnoredDuringExecution: []corev1.WeightedPodAffinityTerm{{Weight: 10, PodAffinityTerm: corev1.PodAffinityTerm{
+				LabelSelector: &metav1.LabelSelector{MatchLabels: map[string]string{"app": p.Labels["app"]}}, TopologyKey: corev1.LabelHostname}}}}
+		case 3:
+			p.Spec.TopologySpreadConstraints = []corev1.TopologySpreadConstraint{
+				{MaxSkew: 1, TopologyKey: corev1.LabelTopologyZone, WhenUnsatisfiable: corev1.ScheduleAnyway, LabelSelector: &metav1.LabelSelector{MatchLabels: map[string]string{"app": p.Labels["app"]}}},
+				{MaxSkew: 1, TopologyKey: corev1.LabelHostname, WhenUnsatisfiable: corev1.ScheduleAnyway, LabelSelector: &metav1.LabelSelector{MatchLabels: map[string]string{"app": p.Labels["app"]}}}}
+		}
+		if p.Spec.Affinity.NodeAffinity == nil && p.Spec.Affinity.PodAffinity == nil && p.Spec.Affinity.PodAntiAffinity == nil {
+			p.Spec.Affinity = nil
+		}
+	}
 	n := rapid.IntRange(1, 5).Draw(t, "nCalls")
 	for i := 0; i < n; i++ {
 		c := c18Call{Cancelled: rapid.IntRange(0, 9).Draw(t, "cancelled") == 0, Provision: rapid.IntRange(0, 4).Draw(t, "provision") == 0}
@@ -187,6 +220,24 @@ func diffMaps(a, b map[string]string) string {
 	return strings.Join(diffs, "; ")
 }
 
+// candidatePodsDigest: per candidate and pod, the JSON of the pod object the candidate carries (Candidate.reschedulablePods
+// is unexported and has no accessor; it is read through reflection, no hook).
+func candidatePodsDigest(candidates []*disruption.Candidate) map[string]string {
+	out := map[string]string{}
+	for _, cn := range candidates {
+		f := reflect.ValueOf(cn).Elem().FieldByName("reschedulablePods")
+		if !f.IsValid() {
+			continue
+		}
+		pods, _ := reflect.NewAt(f.Type(), unsafe.Pointer(f.UnsafeAddr())).Elem().Interface().([]*corev1.Pod)
+		for _, p := range pods {
+			raw, _ := json.Marshal(p)
+			out[cn.Name()+"/"+p.Namespace+"/"+p.Name] = string(raw)
+		}
+	}
+	return out
+}
+
 func execC18(s *c18Scenario, c *ev.Ctx) {
 	b := build(s.World, c)
 	w := b.W
@@ -202,6 +253,7 @@ func execC18(s *c18Scenario, c *ev.Ctx) {
 	api0 := b.apiDigest()
 	cl0, nom0, nodes0 := b.clusterDigest()
 	prov0 := b.providerDigest()
+	cand0 := candidatePodsDigest(candidates)
 	w.ResetCalls()
 	both := false
 	for i, call := range s.Calls {
@@ -281,6 +333,11 @@ func execC18(s *c18Scenario, c *ev.Ctx) {
 		}
 		if nominationsMayChange {
 			nom0, nodes0 = nom1, nodes1
+		}
+		// the candidates (and the pod objects they carry) are what the disruption controller shares between the
+		// consecutive simulations of one decision
+		if cand1 := candidatePodsDigest(candidates); !reflect.DeepEqual(cand0, cand1) {
+			c.Violate("candidate-pods-changed", "%s changed the pod objects of the candidates it was handed (later simulations of the same decision see other pods): %s", desc, diffMaps(cand0, cand1))
 		}
 		if prov1 := b.providerDigest(); prov1 != prov0 {
 			c.Violate("provider-mutated", "%s modified the provider's instance types / offerings (order, availability, capacity or price)", desc)
